@@ -47,7 +47,7 @@ func nextNonce() int64 { return nonce.Add(1) }
 // classes per kind. "accept" classes are the ones the native authenticator type must accept.
 var (
 	basicClasses  = []string{"valid", "wrongpw", "wronguser", "colonpw", "nocolon", "badb64"}
-	jwtClasses    = []string{"valid", "validnokid", "badsig", "expired", "notyet", "wrongiss", "wrongaud", "unknownkid", "hs256", "unsupalg", "badpayload", "jwks500", "jwksgarbage", "jwksdrop", "meta500", "issbreaksurl"}
+	jwtClasses    = []string{"valid", "validnokid", "badsig", "expired", "notyet", "wrongiss", "wrongaud", "unknownkid", "hs256", "unsupalg", "badpayload", "jwks500", "jwksgarbage", "jwksdrop", "meta500", "issbreaksurl", "noiss", "issnotstring"}
 	opaqueClasses = []string{"valid", "inactive", "expired", "wrongiss", "wrongaud", "nosub", "e500", "garbage", "drop"}
 	sessClasses   = []string{"valid", "denied", "inactive", "expired", "nosub", "e500", "garbage", "drop"}
 	junkClasses   = []string{"plain", "threedots", "blank"}
@@ -170,6 +170,12 @@ func (m *minter) jwt(class, sub string) string {
 		// correctly signed, but the issuer makes every endpoint url templated with .TokenIssuer unusable: invalid
 		// percent escapes, a control character
 		claims["iss"] = issOK + []string{"%zz", "%", "\x7f"}[nextNonce()%3]
+	case "noiss":
+		// correctly signed, but the token does not say who issued it
+		delete(claims, "iss")
+	case "issnotstring":
+		// RFC 7519: iss is a StringOrURI; a number, a list or an object is not an issuer name
+		claims["iss"] = []any{42, []string{issOK}, map[string]any{"name": issOK}, true}[nextNonce()%4]
 	case "badpayload":
 	default:
 		panic("unknown jwt class " + class)
